@@ -95,6 +95,9 @@ func fieldPath(v ssa.Value) (root ssa.Value, path []string) {
 					continue
 				}
 			}
+			if u := unspill(v); u != v {
+				return u, path
+			}
 			return v, path
 		case *ssa.Field:
 			path = append([]string{fieldName(x.X.Type(), x.Field)}, path...)
@@ -257,4 +260,56 @@ func recvOf(call ssa.CallInstruction) ssa.Value {
 		return cc.Args[0]
 	}
 	return nil
+}
+
+// unspill sees through go/ssa's spilling of parameters and receivers into heap cells when a closure or defer
+// captures them: t0 = new *T (p); *t0 = p; t1 = *t0   =>  p
+func unspill(v ssa.Value) ssa.Value {
+	ld, ok := v.(*ssa.UnOp)
+	if !ok || ld.Op != token.MUL {
+		return v
+	}
+	a, ok := ld.X.(*ssa.Alloc)
+	if !ok {
+		return v
+	}
+	var only ssa.Value
+	n := 0
+	for _, ref := range *a.Referrers() {
+		if st, ok := ref.(*ssa.Store); ok && st.Addr == a {
+			n++
+			only = st.Val
+		}
+	}
+	if n == 1 {
+		if p, ok := only.(*ssa.Parameter); ok {
+			return p
+		}
+	}
+	return v
+}
+
+func sameParam(v ssa.Value, p *ssa.Parameter) bool {
+	return unspill(stripConv(v)) == ssa.Value(p)
+}
+
+// retVal resolves the value returned in result slot i, looking through the result cells go/ssa introduces when
+// the function has a defer (*t3 = v; rundefers; t9 = *t3; return t9).
+func retVal(ret *ssa.Return, i int) ssa.Value {
+	v := ret.Results[i]
+	ld, ok := v.(*ssa.UnOp)
+	if !ok || ld.Op != token.MUL {
+		return v
+	}
+	a, ok := ld.X.(*ssa.Alloc)
+	if !ok {
+		return v
+	}
+	b := ret.Block()
+	for j := len(b.Instrs) - 1; j >= 0; j-- {
+		if st, ok := b.Instrs[j].(*ssa.Store); ok && st.Addr == a {
+			return st.Val
+		}
+	}
+	return v
 }
